@@ -543,7 +543,7 @@ func (bridge *ExprBridge) PreprocessLikeExpression(expression string) (string, e
 // PreprocessIsNullExpression 预处理IS NULL和IS NOT NULL表达式，转换为expr-lang可理解的表达式
 func (bridge *ExprBridge) PreprocessIsNullExpression(expression string) (string, error) {
 	// 匹配复杂表达式的 IS NOT NULL 模式 (如函数调用)
-	complexNotNullPattern := `([A-Za-z_][A-Za-z0-9_]*\s*\([^)]*\))\s+IS\s+NOT\s+NULL`
+	complexNotNullPattern := `(?i)([A-Za-z_][A-Za-z0-9_]*\s*\([^)]*\))\s+IS\s+NOT\s+NULL`
 	reComplexNotNull, err := regexp.Compile(complexNotNullPattern)
 	if err != nil {
 		return expression, err
@@ -553,7 +553,7 @@ func (bridge *ExprBridge) PreprocessIsNullExpression(expression string) (string,
 	result := reComplexNotNull.ReplaceAllString(expression, "is_not_null($1)")
 
 	// 匹配复杂表达式的 IS NULL 模式
-	complexNullPattern := `([A-Za-z_][A-Za-z0-9_]*\s*\([^)]*\))\s+IS\s+NULL`
+	complexNullPattern := `(?i)([A-Za-z_][A-Za-z0-9_]*\s*\([^)]*\))\s+IS\s+NULL`
 	reComplexNull, err := regexp.Compile(complexNullPattern)
 	if err != nil {
 		return result, err
@@ -564,7 +564,7 @@ func (bridge *ExprBridge) PreprocessIsNullExpression(expression string) (string,
 
 	// 匹配简单字段的 IS NOT NULL 模式 (必须在复杂表达式之后处理)
 	// The operand is a column or a nested path: a, a.b, arr[0], a.b[1].c, m['k']
-	isNotNullPattern := `(` + isNullOperandPattern + `)\s+IS\s+NOT\s+NULL`
+	isNotNullPattern := `(?i)(` + isNullOperandPattern + `)\s+IS\s+NOT\s+NULL`
 	reNotNull, err := regexp.Compile(isNotNullPattern)
 	if err != nil {
 		return result, err
@@ -576,7 +576,7 @@ func (bridge *ExprBridge) PreprocessIsNullExpression(expression string) (string,
 	})
 
 	// 匹配简单字段的 IS NULL 模式
-	isNullPattern := `(` + isNullOperandPattern + `)\s+IS\s+NULL`
+	isNullPattern := `(?i)(` + isNullOperandPattern + `)\s+IS\s+NULL`
 	reNull, err := regexp.Compile(isNullPattern)
 	if err != nil {
 		return result, err
